@@ -300,14 +300,14 @@ class Gen:
 
     # ------------------------------------------------------------------ paths
     def new_dir(self):
-        d = b"d%d" % self.fresh() + self.deco(2, allow_pipe=False)
+        d = b"d%dq" % self.fresh() + self.deco(2, allow_pipe=False)
         self.dirs.append(d)
         return d
 
     def new_path(self, kind):
         """A fresh intended path (canonical form)."""
         r = self.rng
-        tok = (b"o%d" if kind == "out" else b"s%d") % self.fresh()
+        tok = (b"o%dq" if kind == "out" else b"s%dq") % self.fresh()   # the letter ends the number: no two names collide
         name = self.deco(2) + tok + self.deco(3)
         if r.random() < 0.04:
             name = b"#" + name
@@ -690,9 +690,9 @@ class Gen:
             return
         sub = r.random() < 0.6
         self.nfiles += 1
-        fname = b"inc%d" % self.fresh() + self.deco(2, allow_pipe=True).replace(b"^", b"") + b".ninja"
+        fname = b"inc%dq" % self.fresh() + self.deco(2, allow_pipe=True).replace(b"^", b"") + b".ninja"
         if r.random() < 0.3:
-            fname = b"i%d" % self.fresh() + self.deco(1, allow_pipe=False) + b"/" + fname
+            fname = b"i%dq" % self.fresh() + self.deco(1, allow_pipe=False) + b"/" + fname
         pre = bytearray()
         t, _ = self.spell(pre, scope, fname, canon_only=True)
         out += pre
